@@ -108,6 +108,21 @@ def run(cx):
         cx.ob("R06.rmw", ag.id + "|ref-carries-allocated-index", okr,
               "the returned Ref does not carry the index obtained from fetch_add", ag.loc())
 
+    # ---- R06.len --------------------------------------------------------------
+    ln = fb.one(r"intern::atomic_arena::AtomicArena::<'a, T>::len$")
+    l_acc = [(t, fld, op) for f, t, fld, op in accesses if f is ln]
+    one = len(l_acc) == 1 and l_acc[0][1] == "next_biased_index" and l_acc[0][2] == "load"
+    subs = [x for x in ln.stmts() if x.rv == "binop" and x.j["binop"].startswith("Sub")]
+    const_sub = len(subs) == 1 and any((op_const(o) or {}).get("v") == "128" or (op_const(o) or {}).get("uneval", "").endswith("MIN_SIZE") for o in subs[0].ops)
+    cx.ob("R06.len", ln.id + "|single-monotone-load", one and const_sub,
+          "len() must be one load of the monotone slot counter minus the constant bias; combining several loads "
+          "(or other shared counters) is not a snapshot, so an observer can see the length decrease", ln.loc(),
+          detail="atomic accesses in len: %s; subtractions: %d" % ([(fld, op) for t, fld, op in l_acc], len(subs)))
+    # atomics outside the reviewed protocol table are reported in the evidence, not judged
+    for f, t, fld, op in accesses:
+        if fld is None:
+            cx.note("atomic access outside the protocol table: %s %s L%d" % (f.id, op, t.line))
+
     # ---- R06.publish ---------------------------------------------------------
     stores = [(f, t) for f, t, op in bkt if op in ("store", "swap", "compare_exchange")]
     nondrop = [(f, t) for f, t in stores if f.name != "drop"]
